@@ -126,17 +126,20 @@ impl FeelIterator {
         let mut overflow = true;
         'inner: for (x, iteration_state) in self.iteration_states.iter_mut().enumerate() {
           if overflow {
+            // the next index, `None` when it is out of the range of the index type
+            // (a range ending at the largest integer would otherwise wrap around and never end)
+            let next = iteration_state.index.checked_add(iteration_state.step);
             if x == last_iteration_state_index {
-              if iteration_state.step > 0 && iteration_state.index + iteration_state.step > iteration_state.end {
+              if iteration_state.step > 0 && next.map_or(true, |next| next > iteration_state.end) {
                 break 'outer;
               }
-              if iteration_state.step < 0 && iteration_state.index + iteration_state.step < iteration_state.end {
+              if iteration_state.step < 0 && next.map_or(true, |next| next < iteration_state.end) {
                 break 'outer;
               }
             }
             if iteration_state.step > 0 {
-              if iteration_state.index + iteration_state.step <= iteration_state.end {
-                iteration_state.index += iteration_state.step;
+              if let Some(next) = next.filter(|next| *next <= iteration_state.end) {
+                iteration_state.index = next;
                 overflow = false;
               } else {
                 iteration_state.index = iteration_state.start;
@@ -144,8 +147,8 @@ impl FeelIterator {
               }
             }
             if iteration_state.step < 0 {
-              if iteration_state.index + iteration_state.step >= iteration_state.end {
-                iteration_state.index += iteration_state.step;
+              if let Some(next) = next.filter(|next| *next >= iteration_state.end) {
+                iteration_state.index = next;
                 overflow = false;
               } else {
                 iteration_state.index = iteration_state.start;
